@@ -1386,7 +1386,17 @@ class Executor:
 
     def num_binop(self, op, a: Num, b: Num, node) -> Num:
         if isinstance(op, ast.MatMult):
-            r = app("matmul", self.as_nf(a, node), self.as_nf(b, node))
+            x_, y_ = self.as_nf(a, node), self.as_nf(b, node)
+            # exact identity for A = L L^T (L = cholesky(A)):  inv(L)^T @ inv(L) = inv(A).  The other orientation,
+            # inv(L) @ inv(L)^T, is a different matrix unless A is diagonal and is left un-simplified.
+            ia = _inv_chol_arg(y_)
+            ta = _transpose_arg(x_)
+            if ia is not None and ta is not None and nf_equal(ta, y_):
+                r = app("inv", ia)
+                shape = _matmul_shape(a.shape, b.shape)
+                self.register_atom(r, shape)
+                return Num(r, shape, "float", "ndarray")
+            r = app("matmul", x_, y_)
             shape = _matmul_shape(a.shape, b.shape)
             self.register_atom(r, shape)
             return Num(r, shape, "float", "ndarray")
@@ -1771,6 +1781,29 @@ class Executor:
 
 
 # ------------------------------------------------------------------ utilities
+
+
+def _single(nf):
+    from .nf import single_atom
+
+    return single_atom(nf) if isinstance(nf, NF) else None
+
+
+def _inv_chol_arg(nf):
+    """A if nf is inv(chol(A))"""
+    a = _single(nf)
+    if a is not None and a.kind == "app" and a.args[0] == "inv":
+        b = _single(a.args[1]) if isinstance(a.args[1], NF) else None
+        if b is not None and b.kind == "app" and b.args[0] == "chol":
+            return b.args[1]
+    return None
+
+
+def _transpose_arg(nf):
+    a = _single(nf)
+    if a is not None and a.kind == "app" and a.args[0] == "T":
+        return a.args[1]
+    return None
 
 
 _FLIP_OP = {"<": ">", ">": "<", "<=": ">=", ">=": "<=", "==": "==", "!=": "!="}
